@@ -135,7 +135,7 @@ PointNames == {"MpdfNaN", "MpdfInf", "McdfNaN", "McdfInf", "MicdfNaN", "MicdfInf
                "CcdfGivenNaN", "CcdfGivenInf", "CicdfNaN", "CicdfInf", "CicdfGivenNaN", "CicdfGivenInf",
                "TpdfNaN", "TpdfInf"}
 SurplusNames == {"PdfSurplus", "CdfSurplus", "TpdfSurplus"}
-SingleOnly == PointNames \cup SurplusNames          \* injected singly, not in pairs
+SingleOnly == PointNames \cup SurplusNames \cup {"DataNdim3", "CondNoneParams"}          \* injected singly, not in pairs
 
 Malformations(b) ==
     LET n == Len(Bases[b]) D == 0..(n - 1) IN
